@@ -154,7 +154,7 @@ def link_ll(bcs, out):
     return out
 
 
-def build_library_ir(target='le', harness_srcs=(), workdir=None, repo=None, defs=()):
+def build_library_ir(target='le', harness_srcs=(), workdir=None, repo=None, defs=(), suffix='', debug=True):
     """Compile every library unit (+ optional harness C files) for `target`,
     link, and return (path of linked .ll, list of (lib, relpath))."""
     repo = repo or REPO
@@ -164,9 +164,9 @@ def build_library_ir(target='le', harness_srcs=(), workdir=None, repo=None, defs
     for s in srcs:
         if not os.path.exists(s):
             raise BuildError('library source listed in CMakeLists.txt is missing: ' + s)
-    bcs = compile_units(srcs + list(harness_srcs), os.path.join(workdir, 'bc_' + target),
-                        target=target, std=std, repo=repo, defs=defs)
-    out = os.path.join(workdir, 'lib_%s.ll' % target)
+    bcs = compile_units(srcs + list(harness_srcs), os.path.join(workdir, 'bc_' + target + suffix),
+                        target=target, std=std, repo=repo, defs=defs, debug=debug)
+    out = os.path.join(workdir, 'lib_%s%s.ll' % (target, suffix))
     link_ll(bcs, out)
     return out, units
 
